@@ -70,7 +70,7 @@ type Source struct {
 	Next          func(max int) int // for "short": how many bytes to deliver
 	FailAt        int               // byte offset at which reads fail (-1 none)
 	Forever       bool
-	WithData      bool // deliver the error together with the last bytes before FailAt
+	WithData      bool  // deliver the error together with the last bytes before FailAt
 	Err           error // the error value of the fault (nil: ErrInjected)
 	Hit           int
 	Calls         int
